@@ -261,6 +261,10 @@ def write_evidence(pid, tier, seed, mod, results, obligations, proved, refuted, 
         assumptions.append("unknown callees havocked (sound, imprecise): " + ", ".join(sorted(havoc)))
     all_discharged = (len(proved) == n_ob) and not undecided
     level = "proof" if all_discharged and n_ob > 0 else "other"
+    if level == "proof" and getattr(mod, "LEVEL", None):
+        level = mod.LEVEL       # a check that decides only part of its property says so itself
+    if getattr(mod, "NOT_COVERED", None):
+        assumptions += ["not covered by this check: " + x for x in mod.NOT_COVERED]
     samples = []
     for o in obligations[:6]:
         samples.append({"obligation": o["name"], "status": o["status"], "backend": o.get("backend"),
